@@ -725,7 +725,13 @@ impl TieredEngine {
         &self,
         doc_id: u64,
     ) -> Option<(Vec<f32>, std::collections::HashMap<String, String>)> {
-        if let Some(metadata) = self.cold_tier.fetch_metadata(doc_id) {
+        // The vector and the metadata of one answer must belong to the same write: the metadata is
+        // read together with the token of the vector it was written with, and a mirrored
+        // embedding is only paired with it when it carries that very token. Otherwise both are
+        // taken from the cold tier under one read.
+        if let Some((metadata, metadata_coherence)) =
+            self.cold_tier.fetch_metadata_with_coherence(doc_id)
+        {
             if let Some((embedding, coherence)) = self.hot_tier.get_with_coherence(doc_id) {
                 match self.canonical_vector_state(
                     doc_id,
@@ -733,17 +739,18 @@ impl TieredEngine {
                     coherence,
                     "document-with-metadata hot-tier hit",
                 ) {
-                    CanonicalVectorState::Match => return Some((embedding, metadata)),
+                    CanonicalVectorState::Match if coherence == metadata_coherence => {
+                        return Some((embedding, metadata))
+                    }
+                    CanonicalVectorState::Match => {}
                     CanonicalVectorState::TokenMismatch | CanonicalVectorState::LocalCorruption => {
                         self.discard_stale_hot_mirror(doc_id, "document-with-metadata hot-tier hit")
                     }
                     CanonicalVectorState::Missing => {}
                 }
             }
-            if let Some((embedding, _coherence)) =
-                self.cold_tier.fetch_document_with_coherence(doc_id)
-            {
-                return Some((embedding, metadata));
+            if let Some(Some(document)) = self.cold_tier.bulk_fetch(&[doc_id]).pop() {
+                return Some(document);
             }
         }
 
@@ -966,9 +973,18 @@ impl TieredEngine {
                     "bulk query hot-tier hit",
                 ) {
                     CanonicalVectorState::Match => {
-                        if let Some(canonical_metadata) = self.cold_tier.fetch_metadata(doc_id) {
-                            results[i] =
-                                Some((embedding, canonical_metadata, PointQueryTier::HotTier));
+                        // Pair the mirrored embedding only with metadata of the same vector
+                        // version; after a concurrent overwrite fall back to the cold tier, which
+                        // returns both under one read.
+                        if let Some((canonical_metadata, metadata_coherence)) =
+                            self.cold_tier.fetch_metadata_with_coherence(doc_id)
+                        {
+                            if metadata_coherence == coherence {
+                                results[i] =
+                                    Some((embedding, canonical_metadata, PointQueryTier::HotTier));
+                            } else {
+                                missing_indices.push(i);
+                            }
                         } else {
                             warn!(
                                 doc_id,
